@@ -21,3 +21,24 @@ claim("C02", "other",
       "contract on Python source) by differential runs.",
       TB + "sin/log10/10**x uninterpreted, only log10(y)=0 <=> y=1 and pi bounds assumed for the safety of sin(x)/x.",
       "contract-based deductive verification with loop invariants over ghost sums (z3+cvc5) + bounded differential check of compiled kernels", "DESIGN.md 5/C02")
+
+claim("C03", "other",
+      "Proof: check_nyquist_frequency raises ValueError iff some centre frequency exceeds 1/(2 dt), for every vector and step. Bounded (labelled): "
+      "one curve per retained recording, in input order, each equal (rtol 1e-10) to the curve of that recording processed alone; the three "
+      "time-step policies retain exactly the smallest / a most frequent step in original order; Nyquist refusal - evaluated natively for every "
+      "arrangement of up to 3 time steps over 1-4 recordings (non-involutive groupings first), 4 methods x 3 policies, and 11 arrangements x 6 "
+      "top frequencies x 5 methods x 3 policies. The dict-with-float-keys bookkeeping of prepare_records_with_inconsistent_dt and the row "
+      "reordering of the traditional_* drivers are not yet inside the PyVC subset (DESIGN.md 5/C03 describes the intended invariant).",
+      TB + "Bounded clause bound as stated; A-NP-MAX for max(fcs).",
+      "contract-based deductive verification (check_nyquist_frequency) + bounded exhaustive-arrangement native contract evaluation", "DESIGN.md 5/C03")
+
+claim("C08", "other",
+      "Proof: _search_range_to_index_range returns the half-open index range [first index nearest f_low, first index nearest f_high + 1) for all four "
+      "None-patterns, all grids and limits (so the sample nearest the upper limit is inside the searched slice); _find_peak_unbounded returns "
+      "(None, None) iff scipy keeps no candidate and otherwise frequency and amplitude taken at the same candidate index whose amplitude is "
+      "maximal among the candidates (with and without find_peaks keyword filters). Cross-check/bounded (labelled): HvsrCurve, every window of "
+      "HvsrTraditional incl. the NaN/mask handling, every azimuth of HvsrAzimuthal, HvsrDiffuseField.mean_curve_peak and the mean-curve peaks, "
+      "over histories of 1-4 range updates, against an independent local-maximum oracle.",
+      TB + "A-ARGMIN/A-ARGMAX (first index of the extremum), A-FIND-PEAKS (scipy.signal.find_peaks: increasing interior indices, not lower than "
+      "their neighbours, every strict local maximum present).",
+      "contract-based deductive verification (z3+cvc5) of the index-range and candidate-selection functions + native contract evaluation over update histories", "DESIGN.md 5/C08")
